@@ -113,8 +113,8 @@ DEF_T, DEF_P = 1000.0, 1.0
 
 TRACE = 1e-4                      # mole fraction below which a species is "trace"
 TOL_G = 1e-6                      # G(x_impl) - G_min <= TOL_G * (N + |G_min|)   (N = total moles: scale-aware)
-TOL_AFF = 1e-2                    # |dG/RT + ln Q| of a reaction among non-trace species
-TOL_AMOUNT = 1e-2                 # relative, non-trace amounts (same quantity as TOL_AFF: d ln n)
+TOL_AFF = 1e-3                    # |dG/RT + ln Q| of a reaction among non-trace species
+TOL_AMOUNT = 1e-3                 # relative, non-trace amounts (same quantity as TOL_AFF: d ln n)
 TOL_ATOMS = 1e-8                  # relative to the element total of the feed
 LOWER_BOUND_TAG = 1e-19           # an amount this small sits on pMuTT's lower bound (1e-20)
 
@@ -367,12 +367,14 @@ def _sig(case, prob, run):
         s = 'success'
     else:
         s = 'failure-status-%d' % flag['status']
-    rank = int(np.linalg.matrix_rank(prob['A']))
-    return dict(scipy=s, elements=len(prob['elements']), feed_scale='%g' % float(case['scale']),
-                rank='full' if rank == len(prob['elements']) else 'deficient',
+    return dict(scipy=s, net=case['net'], feed_scale='%g' % float(case['scale']),
                 order='listed' if list(case['order']) == list(range(len(prob['names']))) else 'permuted',
-                history='fresh' if case.get('prior') is None else 'reused',
-                thermo='thermdat' if _is_bundled(case) else 'constant-cp')
+                history='fresh' if case.get('prior') is None else 'reused')
+
+
+def _rank(prob):
+    rank = int(np.linalg.matrix_rank(prob['A']))
+    return 'full' if rank == len(prob['elements']) else 'deficient'
 
 
 def _crash(ctx, e, sig, case):
@@ -394,7 +396,8 @@ def _judge(case, ctx, prob, ref, run, sig):
     flag = run['flag']
     ctx.trace()
     ctx.tag('elements:%d' % len(prob['elements']))
-    ctx.tag('rank:' + sig['rank'])
+    rank = _rank(prob)
+    ctx.tag('rank:' + rank)
     if run['unrelated']:
         ctx.tag('warning:unrelated(clipping or NASA range)')
     start_outside = 1.0 > float(np.sum(b))      # pMuTT starts every species at 1 mol, upper bound = sum of atoms
@@ -488,7 +491,7 @@ def _judge(case, ctx, prob, ref, run, sig):
             ok &= ctx.close('two-species closed form', moles[big], cf[big], sig, case, rtol=TOL_AMOUNT, atol=0.0)
     if ref['forced_zero']:
         nontriv.append('forced')
-    if sig['rank'] == 'deficient':
+    if rank == 'deficient':
         nontriv.append('rank')
     if start_outside:
         nontriv.append('start')
@@ -559,7 +562,7 @@ def check_case(case, ctx):
             ctx.evals()
             what = ('composition does not depend on the order of the species' if order != ident else
                     'composition does not depend on earlier calls on the same object')
-            ctx.close(what, moles[big], base[big], sig, case, rtol=TOL_AMOUNT, atol=0.0)
+            ctx.close(what, moles[big], base[big], sig, case, rtol=2 * TOL_AMOUNT, atol=0.0)
         else:
             ctx.tag('order-or-history:not-comparable(failure signalled)')
 
